@@ -87,6 +87,20 @@ theorem raire_nonempty_of_possible (asn : Nat → Nat → Nat → Nat → D) (C 
   obtain ⟨a, ha, hc⟩ := hS.2 π hπ
   exact hbad a (hS.1 a ha) hc
 
+/-- **C15 in one statement** (with termination): whenever an audit is possible at all, the generator, run
+with enough fuel, returns a non-empty competing set whose largest difficulty is the minimum over all
+competing sets of the largest difficulty in the set. -/
+theorem raire_optimal_total (asn : Nat → Nat → Nat → Nat → D) (C : Contest α) (cvrs : List (Option (Ballot α)))
+    (winner : α) (hC : C.candidates.Nodup) (hn : 2 ≤ C.candidates.length) (fuel : Nat)
+    (hfuel : raireFuel C winner ≤ fuel) (S0 : List (Assertion α D)) (hS0 : Competing asn C cvrs winner S0) :
+    ∃ as m, computeRaireAssertions asn C cvrs winner fuel = Res.ok as ∧ Competing asn C cvrs winner as ∧
+      IsMaxDiff as m ∧ ∀ S m', Competing asn C cvrs winner S → IsMaxDiff S m' → DiffOrd.le m m' = true := by
+  obtain ⟨as, h⟩ := compute_terminates asn C cvrs winner hC hn fuel hfuel
+  have hne := raire_nonempty_of_possible asn C cvrs winner hC hn fuel as h S0 hS0
+  obtain ⟨m, hm⟩ := exists_isMaxDiff as hne
+  obtain ⟨g1, g2⟩ := raire_optimal asn C cvrs winner hC hn fuel as h hne m hm
+  exact ⟨as, m, h, g1, hm, g2⟩
+
 /-! ### Non-vacuity: the concrete contest of `Props/C04.lean` -/
 
 def asnEx (w l _o t : Nat) : Nat := t * 1000 / (w - l)
